@@ -390,8 +390,16 @@ def tolerance_games(rnd, n):
 
 def random_games(rnd, n):
     kind = rnd.choice(["sa", "sa", "sa-broken", "sam", "sam-broken", "convex", "convex-broken", "additive", "neg-additive",
-                       "random", "random", "v0", "v0-small-among-huge"] + (["matching", "matching-one-split", "matching-one-split"] if n >= 4 else []))
+                       "random", "random", "v0", "v0-small-among-huge", "near-additive-huge"] + (["matching", "matching-one-split", "matching-one-split"] if n >= 4 else []))
     N = 2 ** n
+    if kind == "near-additive-huge":
+        # an additive cost game of magnitude 10^6 … 2^40 with ONE coalition moved by 1 (or 1/2): additive "to within 1e-6 relative",
+        # and not additive — monotonicity and superadditivity are exact statements about it
+        w = [-rnd.choice([10 ** 6, 2 ** 30, 2 ** 40]) * rnd.randint(0, 3) for _ in range(n)]
+        v = [Fraction(sum(w[i] for i in range(n) if c >> i & 1)) for c in range(N)]
+        c_ = rnd.choice([c for c in range(N) if G.popcount(c) >= 2])
+        v[c_] += rnd.choice([1, -1, Fraction(1, 2), 2])
+        return kind, v
     if kind == "v0-small-among-huge":
         # a superadditive (or cost: negated, for is_sam) game of magnitude 2^40 whose EMPTY coalition has a small non-zero value: the only
         # split that rejects a positive v(∅) outright is S = T = ∅ (2·v(∅) ≤ v(∅)); in every other split v(∅) drowns in the tolerance
